@@ -392,3 +392,71 @@ Fixpoint rexec (c : cfg) (s : rsys) (ls : list rlabel) : outcome unit rsys :=
 
 Definition n_open (s : rsys) : nat :=
   length (filter (fun x => match x with ROpened => true | _ => false end) (streams s)).
+
+(* ------------------------------------------------------------------------- *)
+(* Trace acceptance for the StreamQueue model.  The harness observes, per side of a real Mux,
+   the times at which transient streams are handed to the application (opened? = true) and
+   dropped by it (false).  The trace is replayed on [rsys]: every reusable stream calls
+   acquire as early as it can (at start-up and the moment its transient stream is dropped),
+   the limiter runs to quiescence after every event, and an observed open is accepted only if
+   some stream holds a granted permit at that instant. *)
+
+Fixpoint find_stream (P : rstatus -> bool) (l : list rstatus) (i : nat) : option nat :=
+  match l with
+  | [] => None
+  | x :: l' => if P x then Some i else find_stream P l' (S i)
+  end.
+
+Definition rsettle (c : cfg) (s : rsys) : outcome unit rsys :=
+  rexec c s (map RLim (settle_labels c (settle_fuel (lim s)) (lim s))).
+
+Definition can_open (s : rsys) (x : rstatus) : bool :=
+  match x with
+  | RAcq id => match find_id id (held (lim s)) with Some _ => true | None => false end
+  | _ => false
+  end.
+
+Definition is_opened (x : rstatus) : bool := match x with ROpened => true | _ => false end.
+
+(* returns (accepted?, number of events consumed, final state) *)
+Fixpoint accept_events (c : cfg) (s : rsys) (evs : list (Z * bool)) (k : Z) : bool * Z * rsys :=
+  match evs with
+  | [] => (true, k, s)
+  | (t, opened) :: evs' =>
+      let d := t - now (lim s) in
+      if d <? 0 then (false, k, s) else
+      match (let* s1 := rexec c s [RLim (LTick d)] in rsettle c s1) with
+      | Ok s2 =>
+          if negb (now (lim s2) =? t) then (false, k, s2) else
+          if opened then
+            match find_stream (can_open s2) (streams s2) 0 with
+            | Some i =>
+                match rexec c s2 [ROpen i] with
+                | Ok s3 => accept_events c s3 evs' (k + 1)
+                | _ => (false, k, s2)
+                end
+            | None => (false, k, s2)
+            end
+          else
+            match find_stream is_opened (streams s2) 0 with
+            | Some i =>
+                match (let* s3 := rexec c s2 [RClose i; RAcquire i] in rsettle c s3) with
+                | Ok s4 => accept_events c s4 evs' (k + 1)
+                | _ => (false, k, s2)
+                end
+            | None => (false, k, s2)
+            end
+      | _ => (false, k, s)
+      end
+  end.
+
+(* case: burst, refresh, number of reusable streams, observed events (time, opened?) *)
+Definition accept_trace (x : Z * Z * nat * list (Z * bool)) : obsv :=
+  let '(b, r, n, evs) := x in
+  let c := {| burst := b; refresh := r; start := 0 |} in
+  match (let* s0 := rexec c (rinit c n) (map RAcquire (seq 0 n)) in rsettle c s0) with
+  | Ok s0 =>
+      let '(ok, k, s) := accept_events c s0 evs 0 in
+      OL [ob ok; OZ k; OZ (Z.of_nat (length (opens s)))]
+  | _ => OL [OZ 2]
+  end.
